@@ -21,6 +21,7 @@ func init() {
 	vHarnesses["vH_C18_malformed_16"] = vH_C18_malformed_16
 	vHarnesses["vH_C18_malformed_24"] = vH_C18_malformed_24
 	vHarnesses["vH_C18_errors_8_8"] = vH_C18_errors_8_8
+	vHarnesses["vH_C18_errors_trunc_8_16"] = vH_C18_errors_trunc_8_16
 }
 
 var vTypes = [4]string{"moov", "mdat", "moof", "free"}
@@ -254,4 +255,29 @@ func vH_C18_errors_8_8() {
 		vAssert("C18.errors.none-no-error", err == nil)
 	}
 	vReach("C18.errors.end")
+}
+
+// Errors on a stream cut short anywhere (inside a header, inside a box body, at a box boundary): an error returned by
+// the callback for the trailing bytes - or by any read - is what Parse returns, and nothing is delivered after it.
+func vH_C18_errors_trunc_8_16() {
+	vReset()
+	data, _ := vBuildStream([]int{8, 16}, []int{2, 1})
+	cut := vConc(vInt("cut", 1, 24))
+	data = data[:cut]
+	failRead := vInt("failRead", -1, 3)
+	failCb := vInt("failCb", -1, 1)
+	vFailCallbackAt = failCb
+	r := &vReader{data: data, maxFrag: 2, eofWithData: vBool("eofWithData"), failAt: failRead}
+	p := NewMP4ChunkParser(r, make([]byte, 64), vCallback)
+	err := p.Parse()
+	if vCbFailed {
+		vAssert("C18.errors-trunc.callback-error-returned", err == vErrCallback)
+		vAssert("C18.errors-trunc.no-callback-after-error", vNrCalls == failCb)
+	} else if r.failed {
+		vAssert("C18.errors-trunc.read-error-returned", err == vErrRead)
+	} else {
+		vAssert("C18.errors-trunc.none-no-error", err == nil)
+		vAssert("C18.errors-trunc.all-bytes-delivered", vOutLen == cut)
+	}
+	vReach("C18.errors-trunc.end")
 }
